@@ -122,11 +122,13 @@ class Cfg:
     def argv(self, d, rng=None, extra=()):
         groups = self.option_groups(d)
         if rng is not None:
-            # permute, keeping the relative order of the -u values (the property lets that order matter)
-            cut_groups = [x for x in groups if x[0] == "-u"]
+            # permute, keeping the relative order of the -u values (the property lets that order matter) and of the
+            # adapters (their order breaks ties, C09) and of repeated --strip-suffix
+            keep = ("-u", "-a", "-g", "-b", "--strip-suffix")
+            kept = [x for x in groups if x[0] in keep]
             rng.shuffle(groups)
-            it = iter(cut_groups)
-            groups = [next(it) if x[0] == "-u" else x for x in groups]
+            it = iter(kept)
+            groups = [next(it) if x[0] in keep else x for x in groups]
         out = "out.{name}." + self.ext() if self.demux else "out." + self.ext()
         argv = ["--no-index", "--json", os.path.join(d, "report.json"), "-o", os.path.join(d, out)]
         for x in groups:
@@ -438,10 +440,11 @@ def adapter_spec_string(rng, allow_linked=True, anchored_ok=True, named=True, id
         return "-g", name + seq + params, [seq]
     if kind == "anywhere":
         return "-b", name + seq + params, [seq]
+    import re as _re
     if kind == "prefix":
-        return "-g", name + "^" + seq + params, [seq]
+        return "-g", name + "^" + seq + _re.sub(r";o=\d+", "", params), [seq]
     if kind == "suffix":
-        return "-a", name + seq + "$" + params, [seq]
+        return "-a", name + seq + "$" + _re.sub(r";o=\d+", "", params), [seq]
     if kind == "nifront":
         return "-g", name + "X" + seq + params, [seq]
     if kind == "niback":
@@ -451,7 +454,8 @@ def adapter_spec_string(rng, allow_linked=True, anchored_ok=True, named=True, id
     seq2 = U.rand_seq(rng, rng.choice([4, 5, 6, 8]), "ACGT")
     flag = rng.choice(["-a", "-g"])
     a1 = rng.choice(["", "^"]) + seq + rng.choice(["", ";optional", ";required", ";e=0.2"])
-    a2 = seq2 + rng.choice(["", "$"]) + rng.choice(["", ";optional", ";required", ";o=3"])
+    anch2 = rng.choice(["", "$"])
+    a2 = seq2 + anch2 + rng.choice(["", ";optional", ";required"] + ([";o=3"] if not anch2 else []))
     return flag, name + a1 + "..." + a2, [seq, seq2]
 
 
